@@ -90,7 +90,23 @@ def _is_staticmethod(cls, attr):
     # there is no instance to bind away
     for klass in cls.__mro__:
         if attr in klass.__dict__:
-            return isinstance(klass.__dict__[attr], staticmethod)
+            raw = klass.__dict__[attr]
+            break
+    else:
+        return False
+    # also under modifiers (.func) and wrappers / functools.wraps (__wrapped__)
+    for _ in range(16):
+        if isinstance(raw, staticmethod):
+            return True
+        try:
+            inner = vars(raw).get('__wrapped__')
+        except TypeError:
+            inner = None
+        if inner is None:
+            inner = getattr(raw, 'func', None)
+        if inner is None or inner is raw:
+            return False
+        raw = inner
     return False
 
 def fetch_dotted_name(name):
